@@ -2,6 +2,7 @@ package main
 
 import (
 	"fmt"
+	"math"
 
 	"gonum.org/v1/gonum/blas"
 	"gonum.org/v1/gonum/lapack"
@@ -45,17 +46,33 @@ func (cs *Case) normCase(routine string, nk lapack.MatrixNorm, extraTag string, 
 			continue
 		}
 		tol := float64(full.R+full.C+8) * 2 * eps
-		if !vrt.RelClose(res.F, want, tol, 0) {
+		if !vrt.RelClose(res.F, want, tol, float64(full.R+full.C+8)*subFloor) {
 			cs.fail(routine, tag, "norm-wrong", "%v dims=%v: got %v, definition gives %v", cf, dims, res.F, want)
 		}
 	}
 }
 
-func (h *H) checkNorms(id string, seedIdx, m, n int) {
+func (h *H) checkNorms(id string, seedIdx, m, n int) { h.checkNormsCls(id, seedIdx, m, n, "") }
+
+// checkNormsCls runs the norm routines on a general (cls == "") or an
+// extreme-magnitude matrix (Dlassq scaling, sums near overflow).
+func (h *H) checkNormsCls(id string, seedIdx, m, n int, cls string) {
 	rng := h.c.RNG("norms", seedIdx)
 	cs := h.newCase(id, rng)
 	defer cs.done()
 	g := ref.FromFunc(m, n, func(i, j int) float64 { return rng.Sym() * float64(1+rng.Intn(3)) })
+	vecExp := [3]int{}
+	if isExtreme(cls) {
+		g, _ = general(rng, cls, m, n)
+		switch cls {
+		case clsSub:
+			vecExp = [3]int{subExp, subExp, subExp}
+		case clsHuge:
+			vecExp = [3]int{hugeExp, hugeExp, hugeExp}
+		default:
+			vecExp = [3]int{0, subExp, hugeExp}
+		}
+	}
 	for _, nk := range allNorms {
 		cs.normCase("Dlange", nk, "", D{"m": m, "n": n}, nil, g, func(a *lapackgen.Args) { setMat(a, "a", g) })
 		// trapezoidal
@@ -134,6 +151,12 @@ func (h *H) checkNorms(id string, seedIdx, m, n int) {
 		// tridiagonal
 		nm1 := max(n-1, 0)
 		dl, d, du := randVec(rng, nm1), randVec(rng, n), randVec(rng, nm1)
+		for i := range dl {
+			dl[i], du[i] = math.Ldexp(dl[i], vecExp[0]), math.Ldexp(du[i], vecExp[2])
+		}
+		for i := range d {
+			d[i] = math.Ldexp(d[i], vecExp[1])
+		}
 		cs.normCase("Dlangt", nk, "", D{"n": n}, nil, tridiagFull(n, dl, d, du), func(a *lapackgen.Args) {
 			setVec(a, "dl", dl)
 			setVec(a, "d", d)
